@@ -282,7 +282,7 @@ def run(ctx):
                 for o, w in zip(ops, whys):
                     if w:
                         san = san or ft.sanitised(o, bb, zero_test=(opk == "Sub" and o is ops[0] and mirg.op_int(ops[1]) == 1))
-                if san and opk == "Sub" and mirg.op_int(ops[0]) is None and mirg.op_int(ops[1]) is None and not san.startswith("derivation passes") and not san.startswith("dominating zero test"):
+                if san and opk == "Sub" and mirg.op_int(ops[0]) is None and mirg.op_int(ops[1]) is None and not san.startswith("dominating zero test") and not (san.startswith("derivation passes") and ft.clamped_by(ops[1], ops[0])):
                     # two variable operands: a check on one of them (or on a relative) says nothing about their order —
                     # the evidence must compare the two with each other
                     san2 = ft.ordered_before(ops[0], ops[1], bb)
@@ -390,6 +390,89 @@ def run(ctx):
                 else:
                     ctx.bad(R_index, "D|%s|[%d]" % (path, mirg.op_int(idx)), "%s:%d" % (f.file, t["ln"]), "constant index [%d] into a buffer whose length is input-controlled (%s) and unchecked" % (mirg.op_int(idx), lw),
                             "an empty/short buffer panics with index out of bounds")
+
+    # J: an index guarded by an *inclusive* upper bound (`if i <= n { v[i] }`, `if i > n { return Err } .. v[i]`): the guard admits
+    # i == n, one past the end of a container of n elements.  Expected count on a correct tree is zero; instances of the guard
+    # shape (exclusive forms included) are counted so that the rule is seen to look at something.
+    R_incl = ctx.rule("C05.J-index-guard-is-exclusive", "no index expression is guarded by an inclusive comparison `i <= bound` / `!(i > bound)` on the index itself", floor=30)
+
+    def _copies(du_, l_):
+        out_, st_ = set(), [l_]
+        while st_:
+            x_ = st_.pop()
+            if x_ in out_:
+                continue
+            out_.add(x_)
+            for _b, k_, p_ in du_.defs.get(x_, []):
+                if k_ == "assign" and p_[2][0] in ("use", "cast"):
+                    for o_ in mirg.rvalue_operands(p_[2]):
+                        if op_local(o_) is not None and not pproj(o_[1]):
+                            st_.append(op_local(o_))
+        return out_
+    for path in sorted(reach):
+        f = cg.fns[path]
+        if "::tests::" in path or "::test_utils" in path or "::debug::" in path or not f.mir:
+            continue
+        blocks = f.mir["blocks"]
+        sites = []
+        for i, b in enumerate(blocks):
+            t = b["t"]
+            if b.get("cl"):
+                continue
+            if t["k"] == "assert" and t.get("ak") == "bounds" and not t.get("x") and op_local(t["ops"][1]) is not None:
+                sites.append((i, t["ops"][1], t["ln"]))
+            if t["k"] == "call" and re.search(r"ops::index::Index(Mut)?<.*>>::index(_mut)?$", mirg.callee(t) or "") and len(t["a"]) == 2 and op_local(t["a"][1]) is not None and not t.get("x"):
+                sites.append((i, t["a"][1], t["ln"]))
+        if not sites:
+            continue
+        du_ = mirg.DefUse(f)
+        cmps = []
+        for i, b in enumerate(blocks):
+            t = b["t"]
+            if t["k"] != "switch":
+                continue
+            seen_, st_ = set(), [(op_local(t["d"]), False)]
+            while st_:
+                x_, ng = st_.pop()
+                if x_ is None or x_ in seen_:
+                    continue
+                seen_.add(x_)
+                for _b, k_, p_ in du_.defs.get(x_, []):
+                    if k_ == "assign" and p_[2][0] == "bin" and p_[2][1] in ("Le", "Ge", "Lt", "Gt"):
+                        cmps.append((i, p_[2], t, ng))
+                    elif k_ == "assign" and p_[2][0] == "un" and p_[2][1] == "Not":
+                        st_.append((op_local(p_[2][2]), not ng))
+                    elif k_ == "assign" and p_[2][0] == "use" and op_local(p_[2][1]) is not None and not pproj(p_[2][1][1]):
+                        st_.append((op_local(p_[2][1]), ng))
+        if not cmps:
+            continue
+        cfg_ = mirg.Cfg(f)
+        for bi, idx, ln in sites:
+            ia = _copies(du_, op_local(idx))
+            for ci, rv, st, ng in cmps:
+                opc, l_, r_ = rv[1], rv[2], rv[3]
+                ll, rl = op_local(l_), op_local(r_)
+                lin = ll is not None and bool(_copies(du_, ll) & ia)
+                rin = rl is not None and bool(_copies(du_, rl) & ia)
+                if lin == rin:
+                    continue
+                # the branch on which `idx <= bound` (inclusive) is all that is known
+                want = True if (opc == "Le" and lin) or (opc == "Ge" and rin) else False if (opc == "Gt" and lin) or (opc == "Lt" and rin) else None
+                # the exclusive forms, for the count
+                excl = True if (opc == "Lt" and lin) or (opc == "Gt" and rin) else False if (opc == "Ge" and lin) or (opc == "Le" and rin) else None
+                for w_, kind in ((want, "inclusive"), (excl, "exclusive")):
+                    if w_ is None:
+                        continue
+                    w2 = (not w_) if ng else w_
+                    tfalse = [t_ for v_, t_ in st["ts"] if v_ == 0]
+                    tgt = st.get("o") if w2 else (tfalse[0] if tfalse else None)
+                    if tgt is None or not (tgt == bi or cfg_.dominates(tgt, bi)):
+                        continue
+                    if kind == "exclusive":
+                        ctx.ok(R_incl, {"fn": path, "line": ln, "guard": "exclusive"}) if len(ctx.samples) < 400 else (ctx.rules[R_incl].__setitem__("obligations", ctx.rules[R_incl]["obligations"] + 1), ctx.rules[R_incl].__setitem__("discharged", ctx.rules[R_incl]["discharged"] + 1))
+                    else:
+                        ctx.bad(R_incl, "J|%s|inclusive-index-guard" % path, "%s:%d" % (f.file, ln), "the index used at line %d is only known to be <= its bound (comparison `%s` at line %d), so the bound itself is admitted" % (ln, opc, st["ln"]),
+                                "an index equal to the element count passes the guard and panics with index out of bounds")
 
     # G: cyclic probe loops over a table taken from an opened archive terminate when the table has no free slot
     from .. import hirq, symx
